@@ -5,8 +5,12 @@
    an accepted string also yields CONSISTENT bitboards (us | them = union of the six piece boards): the board loop
    keeps  white xor black = xor of the piece boards  (each character toggles one colour bit and one piece bit of the
    same square, wrap-around or not) and validate's disjointness tests turn the xors into unions (DESIGN A6).
-   PARTIAL: completeness on D and "a well-formed string denotes the position it spells" are checked by the
-   correspondence run (every pool FEN accepted in both notations; fields compared with an independent reading). *)
+   Completeness: the FEN the engine prints for any position of D, and of any position reached from D by moves and null moves,
+   is accepted (C07_fen_of_every_position_of_D_is_accepted, C07_fen_of_every_reached_position_is_accepted), and it denotes the
+   position it was printed from -- the very same record, or the record with the files of lost rights reset
+   (C07_printed_fen_is_accepted, C07_printed_fen_of_a_reached_position_is_accepted).
+   LEFT TO THE RUN: well-formed strings in spellings the printer does not use (KQkq against file letters in Chess960, omitted
+   counters): every pool FEN is offered in both notations and the fields are compared with an independent reading. *)
 From Coq Require Import NArith ZArith List Bool.
 From Rawr Require Import Consts Bits Magic Position MoveGen MakeMove Fen FenFacts ParityFacts FenRound FenCastle Abs ClosureNull DomainClosed FenDomain.
 Local Open Scope N_scope.
